@@ -425,10 +425,11 @@ def run(ctx):
 
 
 def search(ctx):
-    cases = gen.lattice_cases("thorough", ctx.seed + 1, exhaustive=False) + small_cases("thorough", ctx.seed + 1)
+    cases = gen.lattice_cases("thorough", ctx.seed + 1, exhaustive=False)
     if ctx.tier == "quick":
-        cases = cases[:300] + small_cases("thorough", ctx.seed + 1)[:60]
-    evaluate(ctx, cases, "search", kmax=11, n_random=10, big_F=200)
+        evaluate(ctx, cases[:150] + small_cases("thorough", ctx.seed + 1)[:60], "search", kmax=10, n_random=8, big_F=80)
+    else:
+        evaluate(ctx, cases + small_cases("thorough", ctx.seed + 1), "search", kmax=11, n_random=10, big_F=200)
 
 
 def replay(ctx, payload):
